@@ -2,7 +2,7 @@
 CFG = {
     "modules": ["VaxisModel.Props.C17", "VaxisModel.Props.C17Ext", "VaxisModel.Props.C17Facts", "VaxisModel.Props.C17FactsTF", "VaxisModel.Props.C17FactsTI",
                 "VaxisModel.Props.C17BodyBase", "VaxisModel.Props.C17BodyReset", "VaxisModel.Props.C17BodyCursorTo", "VaxisModel.Props.C17BodyInsert",
-                "VaxisModel.Props.C17BodyDelRight", "VaxisModel.Props.C17BodyDelLeft", "VaxisModel.Props.C17BodyKill", "VaxisModel.Props.C17BodyCheck", "VaxisModel.Props.C17BodyDraw",
+                "VaxisModel.Props.C17BodyDelRight", "VaxisModel.Props.C17BodyDelLeft", "VaxisModel.Props.C17BodyKill", "VaxisModel.Props.C17BodyCheck", "VaxisModel.Props.C17BodyDraw", "VaxisModel.Props.C17BodyWidth",
                 "VaxisModel.Props.C17Body", "VaxisModel.Props.C17BodyTI", "VaxisModel.Props.C17Seg", "VaxisModel.Witness.F517"],
     "extractors": ["C17"],
     "drivers": ["C17"],
@@ -74,7 +74,7 @@ CFG = {
     "level_note": "Validated by correspondence only: that Key.String()/Key.Matches produce the strings/verdicts the tables list (C09's subject); that "
                   "uniseg is a Segmentation and equals the driver's clUax (compared on every op); which offset Draw settles on when the line does NOT fit (the scroll policy: modelled in draw/scrollLoop, compared cell by cell; theorems say what is "
                   "shown for the offset it settles on and bound it by 0 <= offset <= cursor, not which offset it is). New oracle on the implementation (round 3): in the scrolled case the drawn row is the prompt followed by a window of the ideal text for some offset 0..cursor, truncators at the cut ends. Modelled, not "
-                  "verified: nothing in the editing functions; since round 4 every statement of the editing functions (guards included) is in the translated bodies the theorems speak about; textinput.Draw and widthToCursor are still hand models tied by the round-2 text pins (printed with canonical variable names since round 4) and the correspondence run; the cells TextField.Draw writes are not modelled. Not modelled: "
+                  "verified: nothing in the editing functions; since round 4 every statement of the editing functions (guards included) is in the translated bodies the theorems speak about; textinput.Draw is still a hand model (its helper widthToCursor is translated and proved equal to the model's, ti_widthToCursor_body_eq_model) tied by the round-2 text pins (printed with canonical variable names since round 4) and the correspondence run; the cells TextField.Draw writes are not modelled. Not modelled: "
                   "direct assignment to the public field TextField.Value, HideCursor, a tab typed into textinput (vaxis.Characters turns it into 8 "
                   "blanks before the editor sees it).",
     "timeout": 1500,
